@@ -28,18 +28,6 @@ import RuschmProofs.StoreLemmas
 namespace Ruschm.C03
 open Ruschm Ruschm.Eval
 
-/-- demo store. Frame 0 (root): `x ↦ 1`, `v ↦ #0`; frame 1 (child of 0): `x ↦ 2`,
-`f ↦ closure over frame 0`; frame 2 (child of 0): `l ↦ (#0 . #1)`; frame 3 (child of 1).
-Cell #0: mutable `[1, 2]`; cell #1: immutable `[#0]`. -/
-def demo : Store where
-  frames := #[
-    { parent := none, defs := [("x", .num (.int 1)), ("v", .vec 0)] },
-    { parent := some 0, defs := [("x", .num (.int 2)),
-        ("f", .closure (.mk ⟨["a"], none⟩ [] [.sym "x" none]) 0)] },
-    { parent := some 0, defs := [("l", .pair (.vec 0) (.vec 1))] },
-    { parent := some 1, defs := [] }]
-  vecs := #[{ mutable := true, items := [.num (.int 1), .num (.int 2)] },
-            { mutable := false, items := [.vec 0] }]
 
 /-! ## 1. `set!` changes the one binding that lexical scoping designates -/
 
@@ -81,10 +69,10 @@ theorem set_locality (σ : Store) (ρ : Nat) (x : String) (v : Value) :
 
 /-- non-vacuity: from frame 3 (scope 3 → 1 → 0), `set! x` writes to frame 1 (which shadows the
 root's `x`), not to frame 0; from frame 2 it writes to frame 0; `set! nope` fails. -/
-example : demo.chain 3 = [3, 1, 0] ∧ demo.resolve 3 "x" = some 1 ∧ demo.resolve 2 "x" = some 0 ∧
-    (demo.set 3 "x" .nil).1 = true ∧ (demo.set 3 "nope" .nil).1 = false ∧
-    (demo.set 3 "x" .nil).2.binding 1 "x" = some .nil ∧
-    (demo.set 3 "x" .nil).2.binding 0 "x" = some (.num (.int 1)) := by
+example : Store.demo.chain 3 = [3, 1, 0] ∧ Store.demo.resolve 3 "x" = some 1 ∧ Store.demo.resolve 2 "x" = some 0 ∧
+    (Store.demo.set 3 "x" .nil).1 = true ∧ (Store.demo.set 3 "nope" .nil).1 = false ∧
+    (Store.demo.set 3 "x" .nil).2.binding 1 "x" = some .nil ∧
+    (Store.demo.set 3 "x" .nil).2.binding 0 "x" = some (.num (.int 1)) := by
   refine ⟨by decide, by decide, by decide, by decide, by decide, rfl, rfl⟩
 
 /-! ## 4. vectors are objects with identity -/
@@ -171,12 +159,12 @@ theorem vec_alias {σ σ' : Store} {id : Nat} {n : Int} {obj : Value}
 /-- non-vacuity: in `demo`, `v` (frame 0) and the car of `l` (frame 2) and item 0 of cell #1 are
 aliases of cell #0; a `vector-set!` through one is seen through the others; cell #1 is a
 different object and is immutable. -/
-example : ∃ σ', Prim.applyPure demo .vectorSet [.vec 0, .num (.int 1), .sym "new"] = (.ok .void, σ') ∧
-    demo.lookup 3 "v" = some (.vec 0) ∧ demo.lookup 2 "l" = some (.pair (.vec 0) (.vec 1)) ∧
+example : ∃ σ', Prim.applyPure Store.demo .vectorSet [.vec 0, .num (.int 1), .sym "new"] = (.ok .void, σ') ∧
+    Store.demo.lookup 3 "v" = some (.vec 0) ∧ Store.demo.lookup 2 "l" = some (.pair (.vec 0) (.vec 1)) ∧
     Prim.applyPure σ' .vectorRef [.vec 0, .num (.int 1)] = (.ok (.sym "new"), σ') ∧
     Prim.applyPure σ' .vectorRef [.vec 1, .num (.int 0)] = (.ok (.vec 0), σ') ∧
-    Prim.applyPure demo .vectorSet [.vec 1, .num (.int 0), .nil] = (.error (.immutable, none), demo) ∧
-    Prim.applyPure demo .vectorSet [.vec 0, .num (.int 2), .nil] = (.error (.vectorIndex, none), demo) :=
+    Prim.applyPure Store.demo .vectorSet [.vec 1, .num (.int 0), .nil] = (.error (.immutable, none), Store.demo) ∧
+    Prim.applyPure Store.demo .vectorSet [.vec 0, .num (.int 2), .nil] = (.error (.vectorIndex, none), Store.demo) :=
   ⟨_, rfl, rfl, rfl, rfl, rfl, rfl, rfl⟩
 
 /-- Fresh identity: `allocVec`, `(vector …)` and `(make-vector k fill)` return a reference to a
@@ -195,8 +183,8 @@ theorem alloc_fresh (σ : Store) :
   · have : ¬ n < 0 := by omega
     simp [Prim.applyPure, this, Prim.ok, Store.allocVec]
 
-example : Prim.applyPure demo .vector [.nil] = (.ok (.vec 2), (demo.allocVec true [.nil]).2) ∧
-    demo.vecs[2]? = none := ⟨rfl, rfl⟩
+example : Prim.applyPure Store.demo .vector [.nil] = (.ok (.vec 2), (Store.demo.allocVec true [.nil]).2) ∧
+    Store.demo.vecs[2]? = none := ⟨rfl, rfl⟩
 
 /-- Literal vectors reject mutation: evaluating a vector literal (self-evaluating or quoted)
 yields a reference to a cell that did not exist before, and every `vector-set!` through that
@@ -217,9 +205,10 @@ theorem literal_vector_immutable {fuel : Nat} {σ : Store} {ρ : Nat} {xs : List
   refine ⟨id, rfl, hle, by omega, hstep.frames, fun j hj => hstep.old_cells hj, fun n obj => ?_⟩
   rw [Prim.vectorSet_outcome hcell]; simp
 
-example : ∃ σ', evalExpr 1 demo 0 (.datum (.vec [.prim (.int 7) none] none) none) = (.ok (.vec 2), σ') ∧
+example : ∃ σ', evalExpr 1 Store.demo 0 (.datum (.vec [.prim (.int 7) none] none) none) = (.ok (.vec 2), σ') ∧
     Prim.applyPure σ' .vectorSet [.vec 2, .num (.int 0), .nil] = (.error (.immutable, none), σ') :=
-  ⟨(demo.allocVec false [.num (.int 7)]).2, rfl, rfl⟩
+  ⟨(Store.demo.allocVec false [.num (.int 7)]).2,
+    by simp [evalExpr, readLiteral, readLiterals, evalPrim, Store.allocVec, Store.demo], rfl⟩
 
 /-- No operation other than the allocators creates a cell: `define`, `set`, `newFrame`,
 parameter binding and every native procedure other than `vector` / `make-vector` leave the
@@ -245,6 +234,149 @@ theorem cells_only_from_allocators (σ : Store) :
         · rw [h]
         · rw [h]; exact (Prim.sameExceptCell_vsetStore hc _ _).vecs_size
     · rw [Prim.applyPure_vecs σ b args h1 h2 h3]
+
+/-! ## 3. each procedure call creates fresh bindings (data level) -/
+
+/-- One step of `applyScheme`: it allocates frame `σ.frames.size` — an id that is not allocated
+in `σ` — with the closure's frame `cenv` as parent and no definitions; every frame of `σ` and
+every vector is untouched. The parameters are then bound in THAT frame only: after `bindFixed`
+(and the rest parameter) all frames of `σ` are still untouched, the fresh frame still has parent
+`cenv`, and its bindings are exactly the parameters (`names[i] ↦ args[i]`, last occurrence of a
+repeated name first; the rest name ↦ the list of the remaining arguments). The internal
+definitions and the body then run in the fresh frame. -/
+theorem applyScheme_alloc (fuel : Nat) (σ : Store) (lam : Lambda) (cenv : Nat) (args : List Value) :
+    let ρ := σ.frames.size
+    let σ₀ := (σ.newFrame (some cenv)).2
+    (σ.newFrame (some cenv)).1 = ρ ∧ σ.frames[ρ]? = none ∧
+    σ₀.frames[ρ]? = some { parent := some cenv, defs := [] } ∧
+    (∀ i, i ≠ ρ → σ₀.frames[i]? = σ.frames[i]?) ∧ σ₀.vecs = σ.vecs ∧
+    (∀ er σ₁, bindFixed σ₀ ρ lam.formals.fixed args = (.error er, σ₁) →
+      applyScheme (fuel + 1) σ lam cenv args = (.error (er, none), σ₁)) ∧
+    (∀ rest σ₁, bindFixed σ₀ ρ lam.formals.fixed args = (.ok rest, σ₁) →
+      let σ₂ := match lam.formals.rest with
+        | some r => σ₁.define ρ r (Value.ofList rest)
+        | none => σ₁
+      (∀ i, i ≠ ρ → σ₂.frames[i]? = σ.frames[i]?) ∧ σ₂.vecs = σ.vecs ∧
+      σ₂.frames.size = ρ + 1 ∧ σ₂.parentOf ρ = some cenv ∧
+      rest = args.drop lam.formals.fixed.length ∧
+      (∀ y, σ₂.binding ρ y =
+        if lam.formals.rest = some y then some (Value.ofList rest)
+        else ((lam.formals.fixed.zip args).reverse).lookup y) ∧
+      applyScheme (fuel + 1) σ lam cenv args =
+        match evalDefs fuel σ₂ ρ lam.defs with
+        | (.error er, σ) => (.error er, σ)
+        | (.ok (), σ) => evalBody fuel σ ρ lam.body) := by
+  intro ρ σ₀
+  have h0 : ∀ i, i ≠ ρ → σ₀.frames[i]? = σ.frames[i]? := fun i hi => by
+    simp [σ₀, Array.getElem?_push, hi, ρ]
+  have hρ : ρ < σ₀.frames.size := by simp [σ₀, ρ]
+  have hb0 : ∀ y, σ₀.binding ρ y = none := fun y => by
+    simp [Store.binding, σ₀, ρ]
+  have hp0 : σ₀.parentOf ρ = some cenv := by simp [Store.parentOf, σ₀, ρ]
+  refine ⟨rfl, by simp [ρ], by simp [σ₀, ρ], h0, rfl, fun er σ₁ hb => ?_, fun rest σ₁ hb => ?_⟩
+  · simp only [applyScheme, Store.newFrame]
+    simp only [σ₀, ρ, Store.newFrame] at hb
+    rw [hb]
+  · have hoth := bindFixed_other lam.formals.fixed args σ₀ ρ
+    simp only [hb] at hoth
+    obtain ⟨hv, -, -, -, -, hsz, hfr, hpar⟩ := hoth
+    have hm : ∀ o : Option Value, (match o with | some a => some a | none => none) = o := by
+      intro o; cases o <;> rfl
+    obtain ⟨-, hrest, hbind⟩ := bindFixed_bindings _ _ _ _ _ _ hρ hb
+    have hρ₁ : ρ < σ₁.frames.size := by rw [hsz]; exact hρ
+    refine ⟨fun i hi => ?_, ?_, ?_, ?_, hrest, fun y => ?_, ?_⟩
+    · cases lam.formals.rest with
+      | none => exact (hfr i hi).trans (h0 i hi)
+      | some r =>
+        simp only [Store.define_frames_getElem?, hi, if_false]
+        exact (hfr i hi).trans (h0 i hi)
+    · cases lam.formals.rest <;> simp [hv, σ₀]
+    · cases lam.formals.rest <;> simp [hsz, σ₀, ρ]
+    · cases lam.formals.rest with
+      | none => exact hpar.trans hp0
+      | some r => simp only [Store.parentOf_define]; exact hpar.trans hp0
+    · cases lam.formals.rest with
+      | none =>
+        simp only [hbind y, hb0, reduceCtorEq, if_false]
+        exact hm _
+      | some r =>
+        simp only [Store.binding_define, hbind y, hb0, hρ₁, and_true, true_and, Option.some.injEq]
+        by_cases hy : y = r
+        · simp [hy]
+        · simp only [hy, if_false, Ne.symm hy]
+          exact hm _
+    · simp only [applyScheme, Store.newFrame]
+      simp only [σ₀, ρ, Store.newFrame] at hb
+      rw [hb]
+      rfl
+
+/-- non-vacuity: calling a closure of `demo` (over frame 0) allocates frame 4 — unallocated in
+`demo` — under frame 0 and binds `a` there; a second call gets frame 5. -/
+example : ∃ σ₁ σ₂, bindFixed (Store.demo.newFrame (some 0)).2 4 ["a"] [.nil] = (.ok [], σ₁) ∧
+    Store.demo.frames[4]? = none ∧ σ₁.binding 4 "a" = some .nil ∧ σ₁.parentOf 4 = some 0 ∧
+    (σ₁.newFrame (some 0)).1 = 5 ∧
+    bindFixed (σ₁.newFrame (some 0)).2 5 ["a"] [.void] = (.ok [], σ₂) ∧
+    σ₂.binding 4 "a" = some .nil ∧ σ₂.binding 5 "a" = some .void :=
+  ⟨_, _, rfl, rfl, rfl, rfl, rfl, rfl, rfl, rfl⟩
+
+/-- The data-level operations only ever append frames and cells (`Store.Grows`: sizes never
+decrease, existing frames keep their parent and their defined names, existing cells keep their
+mutability flag and length, immutable cells their contents). `Grows` is a preorder, so the
+statement extends to any sequence of these operations. -/
+theorem frames_monotone_data (σ : Store) :
+    Store.Grows σ σ ∧
+    (∀ σ₂ σ₃, Store.Grows σ σ₂ → Store.Grows σ₂ σ₃ → Store.Grows σ σ₃) ∧
+    (∀ ρ x v, Store.Grows σ (σ.define ρ x v)) ∧
+    (∀ ρ x v, Store.Grows σ (σ.set ρ x v).2) ∧
+    (∀ p, Store.Grows σ (σ.newFrame p).2) ∧
+    (∀ m items, Store.Grows σ (σ.allocVec m items).2) ∧
+    (∀ b args, Store.Grows σ (Prim.applyPure σ b args).2) ∧
+    (∀ d, Store.Grows σ (readLiteral σ d).2) ∧
+    (∀ ρ names args, Store.Grows σ (bindFixed σ ρ names args).2) :=
+  ⟨Store.Grows.refl σ, fun _ _ => Store.Grows.trans, Store.grows_define σ, Store.grows_set σ,
+   Store.grows_newFrame σ, Store.grows_allocVec σ, Prim.applyPure_grows σ, readLiteral_grows σ,
+   fun ρ names args => bindFixed_grows names args σ ρ⟩
+
+example : Store.Grows Store.demo (Store.demo.set 3 "x" .nil).2 ∧ (Store.demo.set 3 "x" .nil).1 = true :=
+  ⟨Store.grows_set Store.demo 3 "x" .nil, by decide⟩
+
+/-! ## 5. the store invariant (data level) -/
+
+/-- `Store.WF` holds of the initial store (one root frame) and is preserved by every data-level
+operation on allocated arguments; the values these operations return mention allocated ids only. -/
+theorem store_wf_data :
+    Store.root.WF ∧
+    ∀ σ : Store, σ.WF →
+      (∀ ρ x v, σ.AllocIn v → (σ.define ρ x v).WF) ∧
+      (∀ ρ x v, σ.AllocIn v → (σ.set ρ x v).2.WF) ∧
+      (∀ p, (∀ q, p = some q → q < σ.frames.size) → (σ.newFrame p).2.WF) ∧
+      (∀ m items, (∀ v ∈ items, σ.AllocIn v) →
+        (σ.allocVec m items).2.WF ∧ (σ.allocVec m items).2.AllocIn (σ.allocVec m items).1) ∧
+      (∀ b args, (∀ a ∈ args, σ.AllocIn a) →
+        (Prim.applyPure σ b args).2.WF ∧
+        ∀ v, (Prim.applyPure σ b args).1 = .ok v → (Prim.applyPure σ b args).2.AllocIn v) ∧
+      (∀ d, (readLiteral σ d).2.WF ∧
+        ∀ v, (readLiteral σ d).1 = .ok v → (readLiteral σ d).2.AllocIn v) ∧
+      (∀ ρ names args, (∀ a ∈ args, σ.AllocIn a) →
+        (bindFixed σ ρ names args).2.WF ∧
+        ∀ rest, (bindFixed σ ρ names args).1 = .ok rest →
+          ∀ a ∈ rest, (bindFixed σ ρ names args).2.AllocIn a) ∧
+      (∀ σ' v, Store.Grows σ σ' → σ.AllocIn v → σ'.AllocIn v) :=
+  ⟨Store.wf_root, fun σ wf =>
+    ⟨fun ρ x _ hv => Store.wf_define wf ρ x hv, fun ρ x _ hv => Store.wf_set wf ρ x hv,
+     fun p hp => Store.wf_newFrame wf p hp,
+     fun m items hi => ⟨Store.wf_allocVec wf m hi, Store.allocIn_allocVec σ m items⟩,
+     fun b _ ha => Prim.applyPure_wf wf b ha, fun d => readLiteral_wf wf d,
+     fun ρ names args ha => bindFixed_wf names args σ ρ wf ha,
+     fun _ _ g h => h.grows g⟩⟩
+
+/-- the invariant is satisfiable by a store with closures, nested references and a parent chain
+(`Store.demo_wf`), and a dangling reference breaks it -/
+example : Store.demo.WF := Store.demo_wf
+
+example : ¬ (Store.demo.define 0 "bad" (.vec 9)).WF := fun h => by
+  have := h.frame_vals 0 _ rfl ("bad", .vec 9) (List.Mem.tail _ (List.Mem.tail _ (List.Mem.head _)))
+  simp [Store.AllocIn, Store.demo] at this
 
 /-! ## 6. `eqv?` on vectors is identity of cells; pairs have no identity -/
 
